@@ -237,6 +237,21 @@ Proof.
   rewrite E, H. reflexivity.
 Qed.
 
+(* a URL context never accepts an action after branches that wrote different static prefixes, the
+   empty prefix on one of them included
+   (fix: refuse an action after an ambiguous URL prefix also when the prefix is empty on the first branch) *)
+Theorem url_chain_not_ambiguous c chain sc0 :
+  sanitizers_for_attr_value c = Some chain ->
+  all_same_sc (attr_pairs c) (c_link_rel c) None = Some sc0 -> sc_is_url sc0 = true ->
+  c_attr_amb c = false.
+Proof.
+  unfold sanitizers_for_attr_value. intros H Hs Hu. rewrite Hs in H.
+  destruct (sc_is_enum sc0 && negb (bytes_eqb (c_attr_value c) [])); [discriminate|].
+  destruct ((sc0 =? SC_Style) && negb (bytes_eqb (c_attr_value c) [])
+            && negb (validate_no_charref_prefix (c_attr_value c))); [discriminate|].
+  rewrite Hu in H. cbn [negb] in H. destruct (c_attr_amb c); [discriminate|reflexivity].
+Qed.
+
 (* partial substitutions are refused in enumerated contexts; URL contexts always sanitize *)
 Theorem attr_chain_shape c chain :
   sanitizers_for_attr_value c = Some chain ->
@@ -261,12 +276,12 @@ Proof.
   { intros He. rewrite He in Een. simpl in Een. apply negb_false_iff in Een. apply bytes_eqb_eq in Een. exact Een. }
   split; [exact Henum|].
   destruct (sc_is_url sc0) eqn:Eu; cbn [negb] in H.
-  - destruct (c_attr_value c) as [|b0 v] eqn:Ev.
+  - destruct (c_attr_amb c) eqn:Ea; [discriminate|].
+    destruct (c_attr_value c) as [|b0 v] eqn:Ev.
     + inversion H; subst.
       split; [discriminate|]. split; [reflexivity|]. split; [intros _ Hne; congruence|].
       eexists; reflexivity.
-    + destruct (c_attr_amb c) eqn:Ea; [discriminate|].
-      destruct (url_prefix_validator sc0) as [vf|]; [|discriminate].
+    + destruct (url_prefix_validator sc0) as [vf|]; [|discriminate].
       destruct (vf (b0 :: v)); cbn [negb] in H; [|discriminate].
       split; [discriminate|]. split; [intros _ Hnil; discriminate|].
       split.
